@@ -184,6 +184,10 @@ class H11Protocol:
                     await self._check_protocol(event)
                     await self._create_stream(event)
                 elif event is h11.PAUSED:
+                    if self.stream is None:
+                        # Not recycled, the connection is closing
+                        # and the pipelined data won't be processed.
+                        break
                     await self.can_read.clear()
                     await self.can_read.wait()
                 elif isinstance(event, h11.ConnectionClosed) or event is h11.NEED_DATA:
